@@ -6,6 +6,10 @@
      topon  ... same with the pinned second walk (D16)
      uses   WORLD QUERIES                     -> one result per query, joined by '|':  ok=consumers / err=kind
      usesp  ... same with the pinned pvsort (D2)
+     mani   WORLD NAME VERSION                -> ok TAB mentries TAB install (ok | err=kind) | err TAB kind
+                                                 (Model/BuildOrder.v create_dependencies, install_manifest)
+     cli    WORLD NAME VERSION TOPO CHECK FILTER  -> ok TAB nodes joined by ',' | err TAB kind   (cli_lines)
+   FILTER   = all | le:N | lt:N | ge:N | gt:N | eq:N | ne:N       mentries = node ':' optional(0/1) joined by ';'
    WORLD    = product '|' product ...     product = name ',' version ',' edge ';' edge ...
    edge     = name ':' optstr ':' optstr ':' 0/1       (line version, resolved version, optional)
    optstr   = 'N' | 'S' enc
@@ -180,6 +184,28 @@ let handle (f : Stdlib.String.t array) : Stdlib.String.t =
                                | Ok l -> Stdlib.String.concat ";" (Stdlib.List.map (enc_nodes ",") l))) in
           let cyc = (match check_cycles g with Ok _ -> "pass" | Err k -> err_name k) in
           "ok\t" ^ gs ^ "\t" ^ css ^ "\t" ^ ls ^ "\t" ^ field_of_bool (partition_ok g cs) ^ "\t" ^ cyc))
+  | "mani" ->
+    let w = dec_world f.(1) in
+    (match create_dependencies (fuel_for w) w (dec_str f.(2)) (dec_str f.(3)) with
+     | Err k -> "err\t" ^ err_name k
+     | Ok m ->
+       "ok\t" ^ Stdlib.String.concat ";" (Stdlib.List.map (fun (p, o) -> enc_node p ^ ":" ^ field_of_bool o) m)
+       ^ "\t" ^ (match install_manifest w m with Ok _ -> "ok" | Err k -> "err=" ^ err_name k))
+  | "cli" ->
+    let w = dec_world f.(1) in
+    let top = ((dec_str f.(2), Some (dec_str f.(3))), true) in
+    let flt =
+      if f.(6) = "all" then DAll
+      else (match Stdlib.String.split_on_char ':' f.(6) with
+            | [op; n] ->
+              let n = nat_of_int (int_of_string n) in
+              (match op with
+               | "le" -> DLe n | "lt" -> DLt n | "ge" -> DGe n | "gt" -> DGt n | "eq" -> DEq n | "ne" -> DNe n
+               | _ -> failwith "bad filter")
+            | _ -> failwith "bad filter") in
+    (match cli_lines (fuel_for w) w top (bool_of_field f.(4)) (bool_of_field f.(5)) flt with
+     | Err k -> "err\t" ^ err_name k
+     | Ok l -> "ok\t" ^ enc_nodes "," l)
   | "uses" | "usesp" ->
     let w = dec_world f.(1) in
     (match uses_index (fuel_for w) w with
